@@ -11,6 +11,7 @@ pub mod c12;
 pub mod c13;
 pub mod c14;
 pub mod c18;
+pub mod c19;
 pub mod c20;
 pub mod manip;
 
@@ -36,6 +37,7 @@ pub fn all() -> Vec<Box<dyn Monitor>> {
         Box::new(c14::Ser(c14::SW::C16)),
         Box::new(parsing::Parsing(parsing::PW::C17)),
         Box::new(c18::C18),
+        Box::new(c19::C19),
         Box::new(c20::C20),
     ]
 }
